@@ -180,6 +180,16 @@ CLAIMED = {
             'valid shorter file and must show exactly those layers. Each read runs under a 0.5 s alarm.',
             'step completeness = all data records of the step present; bpch not generated (readers unusable under numpy 2)',
             'DESIGN.md section 4 C14'),
+    'C18': ('A', 'model_checking',
+            'bounded-exhaustive enumeration of reference-encoded bpch files and tables through both real readers and the real writer',
+            'Every (1-3 time blocks, 1-2 categories, 1-2 tracers each, 4 per-tracer layer patterns, 3 nested-grid '
+            'offsets incl. a vertical one, complete / incomplete tracerinfo) is reference-encoded with its tables: '
+            'unscaled read bit-identical and its rewrite byte-identical; scaled read = raw x table scale with the '
+            'table unit; scaled write/read preserves data, tau0/tau1, category/tracer ids, offsets and grid header, '
+            'leaves the source object unchanged (also for an in-memory copy) and is repeatable; bpch2 must present '
+            'the same data as bpch1.',
+            'bpch layout of DESIGN Appendix A (sample reproduced byte for byte); scaled data to 1e-6 relative',
+            'DESIGN.md section 4 C18'),
 }
 
 PENDING_REASON = ('check not built yet in this session; planned per DESIGN.md section 4 '
